@@ -29,6 +29,9 @@ ASSUMPTIONS = [
     "thread-pool persistence (Hydration(pool=...), as insights.collect does): the canned commands of a multi-output "
     "value answer with decreasing latency (15 ms steps), so a completion-order dependence shows as a re-ordering; "
     "sampled, not every interleaving of the real threads",
+    "process history: a driver process handles its archives one after the other; 'late' components come from a plugin "
+    "module loaded with dr.load_components() after the process has loaded at least one archive; a name is never "
+    "looked up before its component is registered (dr caches a miss)",
     "bounds: exhaustive inside the listed TLC configurations; TLC -simulate archives (4 entries, 3 elements, "
     "4 lines, every corruption mode) beyond them",
 ]
@@ -60,6 +63,8 @@ def model_jobs(tier):
         ("outcomes", "SerdeMC", "SerdeMC_outcomes.cfg", {}),
         # a filterable spec with a max-match budget: several elements, every line matches, within the budget
         ("filtered", "SerdeMC", "SerdeMC_filtered.cfg", {}),
+        # components registered (plugin loaded) after the process has already loaded an earlier archive
+        ("late", "SerdeMC", "SerdeMC_late.cfg", {}),
         ("multi", "SerdeMC", "SerdeMC_multi.cfg" if q else subst_cfg("SerdeMC_multi.cfg", "multi.cfg", MaxElems="3"), {}),
         ("faults", "SerdeMC", "SerdeMC_faults.cfg" if q else subst_cfg("SerdeMC_faults.cfg", "faults.cfg", Kinds=all_kinds), {}),
         # every hydration order of three entries under every corruption (model only)
@@ -71,6 +76,8 @@ def model_jobs(tier):
                                                Modes="{}", MaxFaults="0", drop=["CONSTRAINT Emit"]), {}),
         ("neg-shared-budget", "Serde", subst_cfg("SerdeMC_filtered.cfg", "negb.cfg", BudgetMode='"shared"',
                                                  drop=["CONSTRAINT Emit"]), {}),
+        ("neg-snapshot", "Serde", subst_cfg("SerdeMC_late.cfg", "negl.cfg", LookupMode='"snapshot"',
+                                            drop=["CONSTRAINT Emit"]), {}),
         ("neg-completion", "Serde", subst_cfg("Serde_orders.cfg", "negc.cfg", AssembleMode='"completion"', N="1",
                                               MaxElems="2", PoolSet="{TRUE}", Modes="{}", MaxFaults="0"), {}),
     ]
@@ -85,7 +92,7 @@ def run_models(tier):
         r = lib.run_tlc(mod, cfg, workers=4, tag="serde-" + name, timeout=1800, raw_cases=True,
                         coverage=(name in ("faults", "multi")), **kw)
         if name.startswith("neg-"):
-            want = {"neg-completion": "RoundTrip", "neg-points-only": "ErrorsPersisted",
+            want = {"neg-completion": "RoundTrip", "neg-points-only": "ErrorsPersisted", "neg-snapshot": "FaultIsolation",
                     "neg-shared-budget": "RoundTrip"}[name]
             if r.violation != want:
                 raise lib.MachineryError("model %s: expected TLC to find a violation of %s for the transcription of "
@@ -113,7 +120,7 @@ def features(case):
 
 
 def nontrivial_key(case):
-    return json.dumps([[(e["kind"], e["multi"], e.get("outcome"), e.get("backed"), e["saveas"], [el["lines"] for el in e["elems"]])
+    return json.dumps([[(e["kind"], e["multi"], e.get("outcome"), e.get("backed"), e.get("late"), e["saveas"], [el["lines"] for el in e["elems"]])
                         for e in case["entries"]], case["fault"], case.get("pooled", False)], sort_keys=True)
 
 
@@ -156,6 +163,8 @@ def run(prop, tier):
                      ("filterable specs with a budget were persisted and loaded", stats.get("filtered", 0) > 0),
                      ("stand-alone and spec-backed datasources failed", stats.get("failed_alone", 0) > 0 and
                       stats.get("failed_backed", 0) > 0),
+                     ("results of components registered after an earlier load of the same process were persisted",
+                      stats.get("late", 0) > 0 and stats.get("late_persisted", 0) > 0),
                      ("archives were persisted with a thread pool", stats.get("pooled", 0) > 0),
                      ("entries were loaded into the fresh broker", stats.get("loaded", 0) > 0)):
         if not ok:
@@ -227,11 +236,11 @@ def selftest_traces(traces):
     the change breaks."""
     a1 = {"shape": "str", "v": ["a1"]}
     a2 = {"shape": "str", "v": ["a2"]}
-    comps = [dict(kind="text", multi=False, failed=False, outcome="ok", backed=True, filtered=False, saveas="none",
+    comps = [dict(kind="text", multi=False, failed=False, outcome="ok", backed=True, filtered=False, late=False, saveas="none",
                   elems=[_elem([["p1"], [], ["n1"], []])]),
-             dict(kind="command", multi=True, failed=False, outcome="ok", backed=False, filtered=False, saveas="none",
+             dict(kind="command", multi=True, failed=False, outcome="ok", backed=False, filtered=False, late=False, saveas="none",
                   elems=[_elem([["p2"]], "/bin/echo 1", a1), _elem([["b2"], ["L2"]], "/bin/echo 2", a2)]),
-             dict(kind="none", multi=False, failed=True, outcome="timeout", backed=False, filtered=False, saveas="none",
+             dict(kind="none", multi=False, failed=True, outcome="timeout", backed=False, filtered=False, late=False, saveas="none",
                   elems=[])]
 
     def doc(name, nerr, res, multi):
